@@ -14,7 +14,7 @@ print(log[-2000:])
 if not ok:
     print("WARNING: some .vo files did not build"); 
 common.build_mdl()
-for v, tools in (("san", True), ("plain", False)):
+for v, tools in (("san", True), ("plain", False), ("tsan", False)):
     try:
         common.build_impl(v, tools=tools)
     except Exception as e:
